@@ -19,7 +19,7 @@ Qed.
 
 Theorem spec_ok_model c : spec_ok c (model_obs c) = true.
 Proof.
-  unfold spec_ok, model_obs. apply m_run_ok; [apply good_init|].
+  unfold spec_ok, model_obs. apply (m_run_ok _ _ _ true); [reflexivity|apply good_init|].
   intros o _ u _. split; apply split_uri_exact.
 Qed.
 
@@ -69,8 +69,8 @@ Section States.
   Variables (split split_s : str -> option (str * str)) (ncname : str -> bool).
   Local Notation final := (m_final split split_s ncname m_init).
 
-  Lemma final_good ops : good split split_s (final ops).
-  Proof. apply m_final_good, good_init. Qed.
+  Lemma final_good ops : good split split_s true (final ops).
+  Proof. apply m_final_good; [reflexivity|apply good_init]. Qed.
 
   Lemma bijection ops :
     let s := final ops in
@@ -84,7 +84,7 @@ Section States.
     dget (p2n s') p = Some ns /\ dget (n2p s') ns = Some p /\ (exact split u -> ns ++ nm = u).
   Proof.
     intros E. pose proof (final_good ops) as Hg.
-    destruct (m_compute_good split split_s (final ops) u gen Hg) as (G & Q).
+    destruct (m_compute_good split split_s true (final ops) u gen Hg) as (G & Q). specialize (Q (or_introl eq_refl)).
     rewrite E in G, Q. cbn [fst snd] in *.
     destruct (Q _ eq_refl) as [A B]. cbn [fst snd] in *. split; [exact A|]. split; [|exact B].
     destruct G as [(_ & _ & H) _]. now apply H.
@@ -96,7 +96,7 @@ Section States.
     /\ (exact split u -> exact split_s u -> ns ++ nm = u).
   Proof.
     intros E. pose proof (final_good ops) as Hg.
-    destruct (m_compute_strict_good split split_s ncname (final ops) u gen Hg) as (G & Q).
+    destruct (m_compute_strict_good split split_s ncname true (final ops) u gen Hg) as (G & Q). specialize (Q (or_introl eq_refl)).
     rewrite E in G, Q. cbn [fst snd] in *.
     destruct (Q _ eq_refl) as [A B]. cbn [fst snd] in *. split; [exact A|]. split; [|tauto].
     destruct G as [(_ & _ & H) _]. now apply H.
@@ -165,12 +165,12 @@ Proof.
   split.
   - unfold other_manager_bind. cbn zeta.
     set (s := m_final _ _ _ _ _).
-    assert (G : good w_split w_split (set_tries (set_caches s [] []) [] (T []))).
-    { pose proof (m_final_good w_split w_split (fun _ => true)
-                    [OBind (Some [97%N]) w_e true false; OQname (w_e ++ [120%N])] m_init
-                    (good_init w_split w_split)) as [B _].
+    assert (G : good w_split w_split true (set_tries (set_caches s [] []) [] (T []))).
+    { pose proof (m_final_good w_split w_split (fun _ => true) true
+                    [OBind (Some [97%N]) w_e true false; OQname (w_e ++ [120%N])] eq_refl m_init
+                    (good_init w_split w_split true)) as [B _].
       split; [exact B|]. split; intros u q; discriminate. }
-    destruct (m_bind_good w_split w_split _ (Some [98%N]) w_e true false G) as [[B _] _].
+    destruct (m_bind_good w_split w_split true _ (Some [98%N]) w_e true false G) as [[B _] _].
     exact B.
   - eexists. eexists. eexists. split; vm_compute; reflexivity.
 Qed.
